@@ -380,6 +380,35 @@ Proof.
     now rewrite !Z.eqb_refl.
 Qed.
 
+(* storing a count keeps the record fitting *)
+Lemma lookup_set_other (r : recval) f g v : String.eqb g f = false -> lookup ((f, v) :: r) g = lookup r g.
+Proof. intros H. cbn [lookup]. now rewrite H. Qed.
+
+Lemma fitsb_set_num L r f z : plain_num_layout L f = true -> (0 <= z <= max_int64)%Z ->
+  fitsb L r = true -> fitsb L ((f, VI z) :: r) = true.
+Proof.
+  intros Hp Hz Hfit. unfold fitsb in *. apply andb_prop in Hfit as [Hw Hi].
+  unfold plain_num_layout in Hp. rewrite forallb_forall in Hp.
+  assert (Hg : forall g, String.eqb g f = false -> gets ((f, VI z) :: r) g = gets r g)
+    by (intros g E; unfold gets; now rewrite (lookup_set_other r f g _ E)).
+  assert (Hgi : forall g, String.eqb g f = false -> geti ((f, VI z) :: r) g = geti r g)
+    by (intros g E; unfold geti; now rewrite (lookup_set_other r f g _ E)).
+  apply andb_true_intro. split.
+  - unfold widthb in *. destruct (cols L) as [cs|] eqn:Ec; [|discriminate].
+    pose proof (cols_from_segs _ _ _ _ Ec) as Hsegs.
+    apply forallb_forall. intros x Hx. rewrite forallb_forall in Hw. specialize (Hw x Hx).
+    assert (Hin : In (cs_seg x) (l_segs L)) by (rewrite <- Hsegs; now apply in_map).
+    specialize (Hp _ Hin). unfold seg_widthb in *.
+    destruct (cs_seg x) as [bs|g w|g w|g w|g|g|n h|src]; try discriminate; try exact Hw;
+      apply negb_true_iff in Hp; rewrite ?(Hg g Hp), ?(Hgi g Hp); exact Hw.
+  - apply forallb_forall. intros s Hs. rewrite forallb_forall in Hi. specialize (Hi s Hs).
+    destruct s as [bs|g w|g w|g w|g|g|n h|src]; cbn [seg_intb] in *; try reflexivity.
+    destruct (String.eqb g f) eqn:E.
+    + apply String.eqb_eq in E. subst g. unfold geti. cbn [lookup]. rewrite String.eqb_refl.
+      apply andb_true_intro. split; apply Z.leb_le; lia.
+    + now rewrite (Hgi g E).
+Qed.
+
 Lemma map_eq_pairs {A B C D} (g1 : A -> C) (h1 : B -> C) (g2 : A -> D) (h2 : B -> D) l1 : forall l2,
   map g1 l1 = map h1 l2 -> map g2 l1 = map h2 l2 ->
   forall x, In x l1 -> exists y, In y l2 /\ g1 x = h1 y /\ g2 x = h2 y.
@@ -681,13 +710,81 @@ Proof.
   rewrite !forallb_map'. reflexivity.
 Qed.
 
+Lemma rec_fits_set kinds cs x f lo hi z :
+  plain_ok T kinds cs = true -> mem_str (r_kind x) kinds = true -> In (f, (lo, hi)) cs ->
+  (0 <= z <= max_int64)%Z -> rec_fitsb T x = true -> rec_fitsb T (set_int x f z) = true.
+Proof.
+  intros Hp Hk Hf Hz Hfit. unfold plain_ok in Hp. rewrite forallb_forall in Hp. apply mem_str_in in Hk.
+  specialize (Hp _ Hk). unfold rec_fitsb in *. unfold set_int. cbn [r_kind r_val].
+  destruct (layout_of T (r_kind x)) as [L|]; [|discriminate].
+  rewrite forallb_forall in Hp. specialize (Hp _ Hf). cbn [fst] in Hp. now apply fitsb_set_num.
+Qed.
+
+Lemma pow10_6 : pow10 6 = 1000000%Z. Proof. reflexivity. Qed.
+Lemma pow10_8 : pow10 8 = 100000000%Z. Proof. reflexivity. Qed.
+Lemma max_int64_val : max_int64 = 9223372036854775807%Z. Proof. reflexivity. Qed.
+
+Hypothesis T_plain : count_fields_plain T = true.
+
+(* storing the counts keeps every record fitting: the numeric columns take any non-negative Go int *)
+Theorem tabulate_fits f :
+  shape_ok T f = true -> adv_only f = true -> adv_no_iat f = true ->
+  all_file (rec_fitsb T) f = true -> count_boundsb (tabulate f) = true ->
+  all_file (rec_fitsb T) (tabulate f) = true.
+Proof.
+  intros Hshape Hadv Hno Hfit Hb.
+  pose proof (tabulate_tabulated f Hadv) as Htab.
+  assert (Hno' : adv_no_iat (tabulate f) = true) by now rewrite adv_no_iat_tabulate.
+  destruct (tabulated_facts _ Htab Hno') as [_ _ Fn Fe Fk].
+  destruct (bounds_physical _ Htab Hno' Hb) as (B1 & B2 & B3 & B4).
+  rewrite <- Fn in B1. rewrite <- Fe in B2. cbv zeta in Fk. unfold blocks_of in B3. rewrite <- Fk in B3.
+  assert (N1 : (0 <= geti (r_val (fl_ctl (tabulate f))) "BatchCount")%Z) by (rewrite Fn; lia).
+  assert (N2 : (0 <= geti (r_val (fl_ctl (tabulate f))) "EntryAddendaCount")%Z) by (rewrite Fe; lia).
+  assert (N3 : (0 <= geti (r_val (fl_ctl (tabulate f))) "BlockCount")%Z) by (rewrite Fk; lia).
+  unfold count_fields_plain in T_plain. apply andb_prop in T_plain as [Pb Pf].
+  unfold shape_ok in Hshape.
+  repeat match type of Hshape with _ && _ = true => let K := fresh "K" in apply andb_prop in Hshape as [Hshape K] end.
+  unfold all_file in Hfit.
+  repeat match type of Hfit with _ && _ = true => let F := fresh "F" in apply andb_prop in Hfit as [Hfit F] end.
+  assert (Hbatch : forall b, In b (all_batches f) -> batch_shape T b = true -> all_batch (rec_fitsb T) b = true ->
+            all_batch (rec_fitsb T) (tabulate_batch b) = true).
+  { intros b Hin Hs Hf. unfold all_batch in *. unfold tabulate_batch. cbn [bt_hdr bt_entries bt_ctl].
+    apply andb_prop in Hf as [Hf Hc]. rewrite Hf. cbn [andb].
+    unfold batch_shape in Hs. apply andb_prop in Hs as [_ Hk].
+    apply (rec_fits_set _ _ _ "EntryAddendaCount" 4 10 _ Pb Hk); [now left| |exact Hc].
+    specialize (B4 (tabulate_batch b)). rewrite all_batches_tabulate in B4.
+    specialize (B4 (in_map tabulate_batch _ _ Hin)).
+    rewrite built_count_tree. change (tree_count (tabulate_batch b)) with (tree_count b) in B4.
+    rewrite pow10_6 in B4. rewrite max_int64_val. lia. }
+  unfold all_file. unfold tabulate at 1 2 3. cbn [fl_hdr fl_batches fl_iat]. rewrite Hfit. cbn [andb].
+  rewrite !forallb_map'.
+  assert (Hstd : forallb (fun x => all_batch (rec_fitsb T) (tabulate_batch x)) (fl_batches f) = true).
+  { apply forallb_forall. intros b Hin. rewrite forallb_forall in K2, F1.
+    apply Hbatch; [unfold all_batches; apply in_or_app; now left|now apply K2|now apply F1]. }
+  assert (Hiat : forallb (fun x => all_batch (rec_fitsb T) (tabulate_batch x)) (fl_iat f) = true).
+  { apply forallb_forall. intros b Hin. rewrite forallb_forall in K1, F0.
+    apply Hbatch; [unfold all_batches; apply in_or_app; now right|now apply K1|now apply F0]. }
+  rewrite Hstd, Hiat. cbn [andb].
+  (* the file control: three stores *)
+  revert N1 N2 N3 B1 B2 B3. unfold tabulate. cbn [fl_ctl]. set (c := created_control _).
+  rewrite geti_set_same.
+  rewrite (geti_set_other _ "BlockCount" "EntryAddendaCount") by reflexivity. rewrite geti_set_same.
+  rewrite (geti_set_other _ "BatchCount" "EntryAddendaCount") by reflexivity.
+  rewrite (geti_set_other _ "BatchCount" "BlockCount") by reflexivity. rewrite geti_set_same.
+  rewrite pow10_6, pow10_8. intros N1 N2 N3 B1 B2 B3.
+  apply (rec_fits_set _ _ _ "EntryAddendaCount" 13 21 _ Pf); [exact K|right; right; now left|rewrite max_int64_val; lia|].
+  apply (rec_fits_set _ _ _ "BlockCount" 7 13 _ Pf); [exact K|right; now left|rewrite max_int64_val; lia|].
+  apply (rec_fits_set _ _ _ "BatchCount" 1 7 _ Pf); [exact K|now left|rewrite max_int64_val; lia|exact F].
+Qed.
+
 (* the design's statement: whatever the tree, after Create the control records declare what is written *)
 Theorem create_counts_tabulate f g :
   create_counts_of f = Some g ->
-  shape_ok T f = true -> adv_no_iat f = true -> all_file (rec_fitsb T) g = true -> count_boundsb g = true ->
+  shape_ok T f = true -> adv_no_iat f = true -> all_file (rec_fitsb T) f = true -> count_boundsb g = true ->
   let ls := write_file_padded T g in
   let fc := last (write_file T g) [] in
-  fc_batch_count fc = Z.of_nat (batch_header_lines ls)
+  all_file (rec_fitsb T) g = true
+  /\ fc_batch_count fc = Z.of_nat (batch_header_lines ls)
   /\ fc_entry_count fc = Z.of_nat (entry_addenda_lines ls)
   /\ (fc_block_count fc * 10)%Z = Z.of_nat (length ls)
   /\ length (batch_segments ls) = length (all_batches f)
@@ -695,8 +792,9 @@ Theorem create_counts_tabulate f g :
 Proof.
   unfold create_counts_of. destruct (adv_only f) eqn:Hadv; [|discriminate]. intros E. injection E as <-.
   intros Hshape Hno Hfit Hb.
+  pose proof (tabulate_fits f Hshape Hadv Hno Hfit Hb) as Hfit'.
   assert (Hlen : length (all_batches f) = length (all_batches (tabulate f))) by (now rewrite all_batches_tabulate, map_length).
-  rewrite Hlen. apply create_counts; try assumption.
+  rewrite Hlen. split; [exact Hfit'|]. apply create_counts; try assumption.
   - now rewrite shape_ok_tabulate.
   - now apply tabulate_tabulated.
   - now rewrite adv_no_iat_tabulate.
